@@ -134,3 +134,41 @@ func VerifC06_Values() {
 		}
 	}
 }
+
+// VerifC06_UtcCentury: ParseUTCTime on every well-formed 13-byte "YYMMDDHHMMSSZ" value (all 100 two-digit years,
+// months 01-12, days 01-28, every time of day): the value is accepted and the calendar year handed on is the one
+// the profile (RFC 5280 4.1.2.5.1) defines - YY >= 50 means 19YY, YY < 50 means 20YY - which is also what the
+// reference decoder of the whole document (crypto/x509) yields.
+// Environment: time.Parse is modelled by its documented two-digit-year rule (>= 69: 19yy, else 20yy), succeeding
+// or failing arbitrarily; Format arbitrary; AddDate(whole years) moves the year by that many. A counterexample is
+// replayed against the real time package.
+func VerifC06_UtcCentury() {
+	b := make([]byte, 13)
+	two := func(i int, lo, hi int) int {
+		b[i], b[i+1] = verifrt.NondetU8("utc"), verifrt.NondetU8("utc")
+		verifrt.Assume(b[i] >= '0' && b[i] <= '9')
+		verifrt.Assume(b[i+1] >= '0' && b[i+1] <= '9')
+		v := int(b[i]-'0')*10 + int(b[i+1]-'0')
+		verifrt.Assume(v >= lo && v <= hi)
+		return v
+	}
+	yy := two(0, 0, 99)
+	two(2, 1, 12)
+	two(4, 1, 28)
+	two(6, 0, 23)
+	two(8, 0, 59)
+	two(10, 0, 59)
+	b[12] = 'Z'
+	t, err := ParseUTCTime(b)
+	if err != nil {
+		// only the environment model refuses a well-formed value (the real time package accepts all of them)
+		verifrt.Reach("utc-rejected")
+		return
+	}
+	verifrt.Reach("utc-accepted")
+	want := 2000 + yy
+	if yy >= 50 {
+		want = 1900 + yy
+	}
+	verifrt.Assert(t != nil && t.Year() == want, "ParseUTCTime yields the RFC 5280 century: YY>=50 -> 19YY, YY<50 -> 20YY")
+}
